@@ -113,3 +113,44 @@ Fixpoint run_logins_with (chk cnt : addr_choice) (c : rl_conf) (s : rl_state) (h
 (** Whether the password of an attempt was evaluated. *)
 Definition evaluated (o : login_out) : bool :=
   match o with L429 _ => false | _ => true end.
+
+(** * Construction of the limiter from the configuration (home.go initUsers)
+
+    [auth_attempts] and [block_auth_min] are Go [uint]s (64 bits).  The code:
+    [if config.AuthAttempts > 0 && config.AuthBlockMin > 0 { blockDur :=
+    time.Duration(config.AuthBlockMin) * time.Minute; rateLimiter =
+    newAuthRateLimiter(blockDur, config.AuthAttempts) }], else the limiter
+    stays nil; [InitAuth] stores it in [Auth.rateLimiter], which handleLogin
+    and newCookie read (nil: no check, no count).  The conversion to
+    [time.Duration] (int64 nanoseconds) and the multiplication wrap. *)
+Record auth_cfg := { ac_attempts : Z; ac_block_min : Z }.
+
+Definition minute_ns : Z := 60000000000.
+Definition wrap64 (z : Z) : Z := (z + 2 ^ 63) mod 2 ^ 64 - 2 ^ 63.
+
+(** The enabling condition, as a parameter; the code's is [cond_code]
+    (tools/routes re-reads it from the source, [Gen.AuthPins]). *)
+Definition block_dur (cfg : auth_cfg) : Z := wrap64 (wrap64 (ac_block_min cfg) * minute_ns).
+Definition cond_code (cfg : auth_cfg) : bool := (0 <? ac_attempts cfg) && (0 <? ac_block_min cfg).
+
+Definition mk_limiter_with (cond : auth_cfg -> bool) (cfg : auth_cfg) : option rl_conf :=
+  if cond cfg
+  then Some {| rl_ttl := minute_ns; rl_block := block_dur cfg; rl_max := Z.to_N (ac_attempts cfg) |}
+  else None.
+
+Definition mk_limiter : auth_cfg -> option rl_conf := mk_limiter_with cond_code.
+
+(** handleLogin / newCookie with [Auth.rateLimiter] possibly nil. *)
+Definition login_opt (lim : option rl_conf) (e : att) (s : rl_state) : rl_state * login_out :=
+  match lim with
+  | Some c => login c e s
+  | None => (s, if a_ok e then L200 else L403)
+  end.
+
+Fixpoint run_logins_opt (lim : option rl_conf) (s : rl_state) (h : list att) : rl_state * list login_out :=
+  match h with
+  | [] => (s, [])
+  | e :: h' =>
+      let '(s1, o) := login_opt lim e s in
+      let '(s2, os) := run_logins_opt lim s1 h' in (s2, o :: os)
+  end.
